@@ -1,19 +1,7 @@
-import warnings; warnings.simplefilter('ignore')
-import cirq, numpy as np
-q=cirq.LineQubit.range(3)
-c=cirq.Circuit(cirq.H(q[0]), cirq.Z(q[0]), cirq.measure_single_paulistring(cirq.X(q[0]), key='m'))
-out=cirq.drop_diagonal_before_measurement(c)
-print(out)
-print(cirq.Simulator(seed=1).run(c,repetitions=5).histogram(key='m'), cirq.Simulator(seed=1).run(out,repetitions=5).histogram(key='m'))
-# factor_density_matrix
-from cirq.linalg import transformations as tr
-rho=np.zeros((8,8),dtype=complex); 
-a=cirq.testing.random_density_matrix(4, random_state=1); b=cirq.testing.random_density_matrix(2, random_state=2)
-rho=np.kron(a,b).reshape((2,)*6)
-try:
-    e,r=tr.factor_density_matrix(rho,[2],validate=True); print('ok', np.allclose(e.reshape(2,2),b))
-except Exception as ex: print('ERR',ex)
-rho2=np.kron(b,a).reshape((2,)*6)
-try:
-    e,r=tr.factor_density_matrix(rho2,[0],validate=True); print('ok', np.allclose(e.reshape(2,2),b))
-except Exception as ex: print('ERR',ex)
+import cirq, tunits
+from cirq_google.api import v2
+s=cirq.Linspace('t', 1*tunits.ns, 10*tunits.us, 4)
+vals=[list(r.param_dict.values())[0] for r in s]
+print(vals, [v[tunits.ns] for v in vals])
+b=v2.sweep_from_proto(v2.sweep_to_proto(s)); print(b, [list(r.param_dict.values())[0] for r in b])
+v=vals[1]; print([m for m in dir(v) if not m.startswith('_')][:40])
